@@ -374,6 +374,47 @@ def _bfs_case(ctx, init_idx, depth) -> F.Outcome:
 
 
 # --------------------------------------------------------------------------
+def _many_dates_case(ctx, n_dates, rounds) -> F.Outcome:
+    """Round-robin allocation over n_dates distinct dates (old and new, not in
+    calendar order), `rounds` times, with a fresh manager for every allocation:
+    every date must continue its own suffix sequence."""
+    from zorg.storage.sql._zid_manager import ZIDManager
+
+    base = H.rotate(_DATE_POOLS, ctx.seed)[0][0]
+    dates = [base - dt.timedelta(days=37 * k) for k in range(n_dates)]
+    order = dates[::2] + dates[1::2][::-1]
+    zdir = H.new_dir("zm")
+    out = F.Outcome(n_evals=0)
+    try:
+        model = {}
+        seen = set()
+        err = None
+        for r in range(rounds):
+            for d in (order if r % 2 == 0 else order[::-1]):
+                z = ZIDManager(zdir).get_next(d)
+                out.n_evals += 1
+                want_suffix = model.get(d, "00")
+                want = f"{_short(d)}#{want_suffix}"
+                model[d] = ZM.successor(want_suffix)
+                if z in seen:
+                    err = err or {"what": "zid-returned-twice", "zid": z, "dates": n_dates, "round": r}
+                seen.add(z)
+                if z != want:
+                    err = err or {"what": "returned-not-this-dates-next", "expected": want, "observed": z,
+                                  "dates": n_dates, "round": r}
+        out.n_nontrivial = out.n_evals
+        out.transitions = out.n_evals
+        out.states = tuple(H.digest([n_dates, r]) for r in range(rounds))
+        out.obs = H.digest(sorted(seen))
+        if err:
+            out.ok = False
+            out.sig = "many-dates:" + err["what"]
+            out.detail = err
+    finally:
+        H.rm(zdir)
+    return out
+
+
 def _params(ctx):
     return {"bfs_depth": 4 if ctx.quick else 6,
             "suffix_set": "all 2-char + carry neighbourhoods of 3-char" if ctx.quick else "all 135252"}
@@ -385,11 +426,19 @@ def _cases(ctx):
     cases = [["chain"], ["alloc_chain"]]
     for i in range(len(_initial_contents(dates))):
         cases.append(["bfs", i, p["bfs_depth"]])
+    for n in range(1, 13 if ctx.quick else 25):
+        cases.append(["many_dates", n, 3])
     sufs = list(_quick_suffixes()) if ctx.quick else list(ZM.all_suffixes())
     date_s = _short(dates[0])
     chunk = 64 if ctx.quick else 256
     for i in range(0, len(sufs), chunk):
         cases.append(["suffixes", date_s, sufs[i:i + chunk]])
+    # year parts 69-99 are 20YY like any other (the suffix space is the same, so
+    # the two-character suffixes suffice here)
+    two = [s_ for s_ in sufs if len(s_) == 2]
+    for late in ("691231", "991231"):
+        for i in range(0, len(two), 512):
+            cases.append(["suffixes", late, two[i:i + 512]])
     return cases, len(sufs)
 
 
@@ -401,6 +450,8 @@ def _run_case(ctx, case) -> F.Outcome:
         return _alloc_chain_case(ctx)
     if kind == "bfs":
         return _bfs_case(ctx, case[1], case[2])
+    if kind == "many_dates":
+        return _many_dates_case(ctx, case[1], case[2])
     if kind == "suffixes":
         return _suffix_chunk_case(ctx, case[2], case[1])
     raise H.HarnessError(f"bad case {case!r}")
@@ -430,7 +481,8 @@ def run(ctx: F.Ctx):
             "{alloc d1, alloc d2, alloc d3, restart, newproc} from 9 initial next_ids.json "
             "contents (every carry/skip point), each history executed on a fresh real "
             "directory (newproc = forked process), states deduplicated on (persisted map, "
-            "set of returned ZIDs, manager age). Every evaluation is distinct by construction."
+            "set of returned ZIDs, manager age); (c) round-robin allocation over n = 1..12 (thorough: "
+            "24) distinct dates, three rounds, a fresh manager per allocation. Every evaluation is distinct by construction."
         ),
         "bounds": {**p, "suffixes_checked": nsuf, "initial_contents": 9, "events": _EVENTS,
                    "dates": [d.isoformat() for d in H.rotate(_DATE_POOLS, ctx.seed)[0]]},
